@@ -311,16 +311,40 @@ func findEqEdgesDirect(fn *ssa.Function, isA, isB func(ssa.Value) bool) []eqEdge
 // satisfies pred.
 func derivesFromCall(v ssa.Value, pred func(*ssa.Function) bool) bool {
 	found := false
-	walkBack(v, true, func(x ssa.Value) bool {
+	var visit func(x ssa.Value, depth int) bool
+	check := func(v ssa.Value, depth int) {
+		walkBack(v, true, func(x ssa.Value) bool { return visit(x, depth) })
+	}
+	visit = func(x ssa.Value, depth int) bool {
 		if c, ok := x.(*ssa.Call); ok {
-			if f := staticCallee(c); f != nil && pred(f) {
+			f := staticCallee(c)
+			if f != nil && pred(f) {
 				found = true
+			} else if depth > 0 && inModuleAny(f) {
+				// a module helper: what it returns
+				allInstrs(f, func(in ssa.Instruction) {
+					if r, isR := in.(*ssa.Return); isR {
+						for _, res := range r.Results {
+							check(res, depth-1)
+						}
+					}
+				})
 			}
 			return false
 		}
 		return !found
-	})
+	}
+	check(v, 2)
 	return found
+}
+
+// inModuleAny: a function with a body defined in the analysed module or in cmd/lz4c (package main).
+func inModuleAny(f *ssa.Function) bool {
+	if f == nil || f.Pkg == nil || len(f.Blocks) == 0 {
+		return false
+	}
+	path := f.Pkg.Pkg.Path()
+	return strings.HasPrefix(path, modPath) || f.Pkg.Pkg.Name() == "main"
 }
 
 func callsFunc(fn *ssa.Function, pkg, name string) bool {
@@ -386,14 +410,24 @@ func ruleMagicDispatch(c *Check, p *Program, rule string) {
 	// m: the word stored into Frame.Magic that comes from a source read.
 	var m ssa.Value
 	var mblk *ssa.BasicBlock
-	allInstrs(fn, func(in ssa.Instruction) {
-		if st, ok := in.(*ssa.Store); ok && strings.HasSuffix(lastField(st.Addr), "Frame.Magic") {
-			if _, isConst := st.Val.(*ssa.Const); !isConst {
-				m = st.Val
-				mblk = st.Block()
+	// the dispatch may live in a helper that ParseHeaders was split into
+	top := fn
+	for _, g := range deepFuncs(fn, 2) {
+		found := false
+		allInstrs(g, func(in ssa.Instruction) {
+			if st, ok := in.(*ssa.Store); ok && strings.HasSuffix(lastField(st.Addr), "Frame.Magic") {
+				if _, isConst := st.Val.(*ssa.Const); !isConst {
+					m = st.Val
+					mblk = st.Block()
+					found = true
+				}
 			}
+		})
+		if found {
+			fn = g
+			break
 		}
-	})
+	}
 	if m == nil {
 		c.Fail(rule, "ParseHeaders#magic-read", p.Pos(fn.Pos()), "the first word must be read into Frame.Magic", "no non-constant store to Frame.Magic found")
 		return
@@ -418,6 +452,18 @@ func ruleMagicDispatch(c *Check, p *Program, rule string) {
 				frameBlk = append(frameBlk, in.Block())
 			}
 		case *ssa.Return:
+			if fn != top && len(x.Results) == 1 && isNilConst(x.Results[0]) {
+				// the helper reports "a frame starts here" by returning nil: the caller parses the descriptor
+				callerParses := false
+				for _, ci := range callsIn(top) {
+					if f := staticCallee(ci); f != nil && f.Name() == "initR" && recvTypeName(f) == "FrameDescriptor" {
+						callerParses = true
+					}
+				}
+				if callerParses {
+					frameBlk = append(frameBlk, in.Block())
+				}
+			}
 			if len(x.Results) == 1 {
 				for _, s := range sentinelsIn(x.Results[0]) {
 					if s == bad {
